@@ -18,6 +18,9 @@ import (
 type c08Params struct {
 	FT, ST, MR        int
 	Interval, Timeout int
+	// Limiter: the rate limiter is enabled as well (with a burst no history exhausts): the
+	// breaker must recover whatever else sits in front of it
+	Limiter bool `json:",omitempty"`
 }
 
 // start-held / finish-held-*: a request is kept in flight at the backend while other requests
@@ -154,10 +157,14 @@ func c08Spec(p c08Params, depth int) vh.HSpec {
 	}
 	maxD += 300 * time.Millisecond
 	return vh.HSpec{
-		Name: fmt.Sprintf("breaker-live-ft%d-st%d-mr%d-i%d-t%d", p.FT, p.ST, p.MR, p.Interval, p.Timeout), Events: c08Events, Depth: depth, Params: p, KeyPrefix: "C08/state-change",
+		Name: fmt.Sprintf("breaker-live-ft%d-st%d-mr%d-i%d-t%d%s", p.FT, p.ST, p.MR, p.Interval, p.Timeout, map[bool]string{true: "-with-rate-limiter"}[p.Limiter]), Events: c08Events, Depth: depth, Params: p, KeyPrefix: "C08/state-change",
 		New: func(s *vrt.Sched) vh.HInstance {
-			cfg := kitConfig(kitOpts{N: 1, Breaker: &config.CircuitBreakerConfig{Enabled: true, MaxRequests: p.MR, IntervalSeconds: p.Interval,
-				TimeoutSeconds: p.Timeout, FailureThreshold: p.FT, SuccessThreshold: p.ST}})
+			o := kitOpts{N: 1, Breaker: &config.CircuitBreakerConfig{Enabled: true, MaxRequests: p.MR, IntervalSeconds: p.Interval,
+				TimeoutSeconds: p.Timeout, FailureThreshold: p.FT, SuccessThreshold: p.ST}}
+			if p.Limiter {
+				o.Limiter = &config.RateLimitConfig{Enabled: true, MaxTokens: 1000000, RefillRate: 1}
+			}
+			cfg := kitConfig(o)
 			if err := cfg.Validate(); err != nil {
 				return &c08Rejected{}
 			}
@@ -195,7 +202,10 @@ func c08Configs() []c08Params {
 					if !vres.Thorough() && ft == 3 && st == 3 {
 						continue
 					}
-					out = append(out, c08Params{ft, st, mr, it[0], it[1]})
+					out = append(out, c08Params{FT: ft, ST: st, MR: mr, Interval: it[0], Timeout: it[1]})
+					if it[0] == 1 && (vres.Thorough() || mr <= 1) {
+						out = append(out, c08Params{FT: ft, ST: st, MR: mr, Interval: it[0], Timeout: it[1], Limiter: true})
+					}
 				}
 			}
 		}
